@@ -178,6 +178,10 @@ func genC14Race(seed uint64, tier string) *plan.Plan {
 			nT++
 		}
 		for j := r.IntN(3); j > 0; j-- {
+			// templates announced again, unchanged, while the refresh is at work
+			pl.Ops = append(pl.Ops, plan.Op{K: "tmplagain", A: int64(r.IntN(nT))})
+		}
+		for j := r.IntN(3); j > 0; j-- {
 			pl.Ops = append(pl.Ops, plan.Op{K: "data", A: int64(r.IntN(nT)), B: int64(1 + r.IntN(3)), C: int64(r.Uint64() >> 1), D: int64(r.IntN(40))})
 		}
 	}
